@@ -30,6 +30,12 @@ def run(rep, tier, seed):
     rep.obligation('make lib/ValidCases.vo (case space of the correspondence)', mk, log[-1500:])
     empty = {'evaluations': 0, 'agree': 0, 'disagreements': [], 'coq_errors': [{'out': 'ValidCases.vo not built'}], 'dist': {}, 'oracle_violations': [],
              'accepted_library_edges_run': 0, 'files': 0, 'exhaustive': False, 'samples': []}
+    cs = corr_eqvalid.class_structure('C18')
+    broken = [t for t, o in cs if not o]
+    struct_ok = not broken
+    rep.obligation('the model still mirrors the class structure (%d reflection checks: which class defines is_valid / _is_valid / _initialize, no overrides, MROs, COMPACT_DIMENSIONALITY)' % len(cs),
+                   struct_ok, 'model no longer mirrors the class structure: ' + '; '.join(broken))
+    rep.cov['class_structure_checks'] = len(cs)
     ncorp, corp_bad = corr_eqvalid.c18_corpus(CORPUS)
     rep.obligation('corpus of minimised past failures (%d constructions, corpus/c18.json) satisfies the specification' % ncorp, not corp_bad,
                    json.dumps(corp_bad[:2], default=str)[:1500])
@@ -74,8 +80,8 @@ def run(rep, tier, seed):
             if 'case' in p:
                 p = dict(p, text=corr_eqvalid.c18_case_text(tuple(p['case'])))
             rep.violation('oracle', dict(p, n_failures=len(orv)), finding_key=k)
-    elif not (ok and corr_ok and bind_ok and mk):
-        what = []
+    elif not (ok and corr_ok and bind_ok and mk and struct_ok):
+        what = ['model no longer mirrors the class structure: ' + t for t in broken]
         if not ok:
             what.append('a theorem of props/C18.v or its proof cone no longer checks (the class tables are recomputed from the regenerated pose model)')
         if not (corr_ok and bind_ok):
